@@ -32,6 +32,7 @@ un-places an instance clears its unschedule mark, and _check_pending_start
 keeps an entry only while the instance's server exists and is not down. Fourth
 round: C08.6 the (state, since) pair is stored by Node.set_state and
 constructors only.
+Fifth round: C08.2 Server.put and Server.restore do not test the server state (a recorded placement on a down or frozen server is restored through them); C08.3 the blacklist pass has no condition besides blacklisted and placed, on the instance or on anything read through it; C08.6 a requested state is always stored.
 Does NOT decide timing ('in the first cycle after the timeout') over clock
 sequences.
 """
